@@ -3,8 +3,8 @@ import Sourmash.Model.Csv
 /-!
 Model/Manifest.lean — `manifest.rs` around the CSV text: `Manifest::to_writer` / `from_reader` at
 the level of `Record`s (serde field order, `intbool` / `to_bool`, integer fields parsed by
-`str::parse`, columns found by header name), `PartialEq for Record` (everything but
-`internal_location` and `md5short`), `intersect_manifest`, `Collection::check_superset`.
+`str::parse`, columns found by header name), `PartialEq` / `Hash for Record` (everything but
+`internal_location` and `md5short`, the molecule column modulo ASCII letter case), `intersect_manifest`, `Collection::check_superset`.
 `Record`, `Record::from_sig`, collections and look-ups are in `Model/Select.lean`.
 -/
 namespace Manifest
@@ -96,12 +96,22 @@ def fromReader (bs : Bytes) : Option (List Record) :=
   | some none => some []
   | some (some (hdr, rows)) => rowsToRecords hdr rows
 
-/-- `PartialEq for Record` (and what `Hash for Record` feeds): everything but `internal_location`
-    and `md5short` -/
+/-- `str::eq_ignore_ascii_case` : equal after ASCII lower-casing, byte by byte -/
+def eqIgnoreAsciiCase (x y : Bytes) : Bool := x.map asciiLower == y.map asciiLower
+
+/-- `PartialEq for Record`: everything but `internal_location` and `md5short`; the molecule column
+    modulo ASCII letter case (no parsing: unknown names are compared the same way, nothing panics) -/
 def recEq (a b : Record) : Bool :=
-  a.md5 == b.md5 && a.ksize == b.ksize && a.moltype == b.moltype && a.scaled == b.scaled &&
+  a.md5 == b.md5 && a.ksize == b.ksize && eqIgnoreAsciiCase a.moltype b.moltype && a.scaled == b.scaled &&
   a.num == b.num && a.nHashes == b.nHashes && a.withAbundance == b.withAbundance &&
   a.name == b.name && a.filename == b.filename
+
+/-- what `Hash for Record` feeds the hasher, in order: the same columns, the molecule column
+    ASCII-lower-cased.  `intersect_manifest` finds rows through a `HashSet<&Record>`: that is
+    "some row of the other manifest is `==`" exactly because equal records feed equal keys
+    (`Sourmash.C12.recEq_iff_key`). -/
+def recKey (r : Record) : Bytes × Nat × Bytes × Nat × Nat × Nat × Bool × Bytes × Bytes :=
+  (r.md5, r.ksize, r.moltype.map asciiLower, r.scaled, r.num, r.nHashes, r.withAbundance, r.name, r.filename)
 
 /-- `Manifest::intersect_manifest` : the rows of `a` found in the hash set of `b`'s rows -/
 def intersect (a b : List Record) : List Record := a.filter (fun r => b.any (fun q => recEq r q))
